@@ -71,6 +71,7 @@ func init() {
 
 func runC13(c *Ctx) {
 	procStateFresh(c, "S1-per-packet-state")
+	epicLibraryStateless(c, "S2-mac-library-stateless")
 	v := c.View(procT + ".processEPIC")
 	if v == nil {
 		return
